@@ -163,8 +163,8 @@ Definition run_pair {A} (solve : bool -> outcome A) : outcome (string * string) 
   | Crash w => Crash w
   | OutOfFuel => OutOfFuel
   end.
-(* StochasticGame.count_transitions: run_games calls it for every entry BEFORE the try block;
-   [len] of a value that has none (None, bool, int, float) is a TypeError that nothing catches *)
+(* StochasticGame.count_transitions: [len] of every entry; a value that has none (None, bool,
+   int, float) raises TypeError *)
 Fixpoint count_transitions (l : list pyval) : outcome nat :=
   match l with
   | [] => Ok 0
@@ -174,11 +174,20 @@ Fixpoint count_transitions (l : list pyval) : outcome nat :=
     | Some k => do c <- count_transitions l'; Ok (k + c)
     end
   end.
-Definition run_entry {A} (solve : bool -> outcome A) (d : desc) : outcome (string * string) :=
-  do _ <- count_transitions (d_trans d); run_pair solve.
+(* run_games as repaired (commit bb189d4):
+     try: n_transitions = sgame.count_transitions()  except TypeError: n_transitions = 0
+   ([count_transitions] has no other failure than that TypeError) *)
+Definition n_transitions (d : desc) : nat :=
+  match count_transitions (d_trans d) with Ok c => c | _ => 0 end.
+(* one dictionary entry: the recorded n_transitions and the two messages *)
+Definition run_entry {A} (solve : bool -> outcome A) (d : desc) : outcome (nat * (string * string)) :=
+  do ms <- run_pair solve; Ok (n_transitions d, ms).
+(* the pinned tree called count_transitions outside any try: the TypeError left run_games *)
+Definition run_entry_orig {A} (solve : bool -> outcome A) (d : desc) : outcome (nat * (string * string)) :=
+  do c <- count_transitions (d_trans d); do ms <- run_pair solve; Ok (c, ms).
 (* the whole dictionary: an uncaught exception aborts the batch, a ValueError does not *)
 Fixpoint run_batch {A} (solve : desc -> bool -> outcome A) (ds : list desc)
-  : outcome (list (string * string)) :=
+  : outcome (list (nat * (string * string))) :=
   match ds with
   | [] => Ok []
   | d :: ds' => do r <- run_entry (solve d) d; do rs <- run_batch solve ds'; Ok (r :: rs)
@@ -202,11 +211,11 @@ Definition vidx_where (l : list (desc * vout)) : list nat :=
 
 (* run_games cases: what happened to one dictionary entry *)
 Inductive bout :=
-| BMsgs (pruned unpruned : string)    (* the two recorded messages *)
-| BExc (cls : string).                (* run_games itself raised *)
-Definition bcmp (o : outcome (string * string)) (x : bout) : bool :=
+| BMsgs (ntrans : nat) (pruned unpruned : string)    (* n_transitions and the two recorded messages *)
+| BExc (cls : string).                               (* run_games itself raised *)
+Definition bcmp (o : outcome (nat * (string * string))) (x : bout) : bool :=
   match o, x with
-  | Ok (a, b), BMsgs a' b' => String.eqb a a' && String.eqb b b'
+  | Ok (c, (a, b)), BMsgs c' a' b' => Nat.eqb c c' && String.eqb a a' && String.eqb b b'
   | Crash c, BExc c' => String.eqb c c'
   | _, _ => false
   end.
@@ -255,3 +264,49 @@ Definition to_typed (d : desc) : option (game (T:=Q)) :=
     end
   | _, _, _ => None
   end.
+
+(** ** Specification: the ten documented well-formedness rules, as one predicate over positions.
+    (Declarative: it mentions no function of the validator; [is_number] / [is_str] / [int_val]
+    are Python's isinstance notions of Model/PyVal.v.) *)
+Definition kind_name (k : kind) : string :=
+  match k with P1 => s_p1 | P2 => s_p2 | PR => s_pr end.
+(* [r >= 0] for a number (False for NaN) *)
+Definition nonneg (a : pyfloat) : Prop :=
+  match a with
+  | FNaN => False
+  | FInf neg => neg = false
+  | FFin q => (0 <= q)%Q
+  end.
+(* a transition (x, t): x a str on player states, a number on probabilistic states;
+   t an int (bool included, as isinstance has it) with 0 <= t < n *)
+Definition good_tuple (k : kind) (n : Z) (t : pyval) : Prop :=
+  exists x s z, t = VTuple [x; s] /\
+    (match k with PR => is_number x = true | _ => is_str x = true end) /\
+    int_val s = Some z /\ (0 <= z < n)%Z.
+(* the transitions value of a state: a non-empty list of good tuples *)
+Definition good_trans (k : kind) (n : Z) (tr : pyval) : Prop :=
+  exists l, tr = VList l /\ l <> [] /\ forall j t, nth_error l j = Some t -> good_tuple k n t.
+
+Definition WFdoc (d : desc) : Prop :=
+  let n := length (d_players d) in
+  (* list lengths agree *)
+  length (d_trans d) = n /\
+  length (d_rewards d) = n /\
+  (* every reward is a number >= 0 *)
+  (forall i r, nth_error (d_rewards d) i = Some r -> exists a, num_of r = Some a /\ nonneg a) /\
+  (* every player is one of the three constants *)
+  (forall i p, nth_error (d_players d) i = Some p -> exists k, p = VStr (kind_name k)) /\
+  (* there is a final state, and every final state is an index *)
+  d_finals d <> [] /\
+  (forall j f, nth_error (d_finals d) j = Some f -> (0 <= f < Z.of_nat n)%Z) /\
+  (* every state has transitions, all of them well-formed for the state's kind *)
+  (forall i p tr, nth_error (d_players d) i = Some p -> nth_error (d_trans d) i = Some tr ->
+     exists k, p = VStr (kind_name k) /\ good_trans k (Z.of_nat n) tr).
+
+(* Outside the universe of C09: a reward that is not a number (the code raises TypeError) or is
+   NaN ([min] then depends on where the NaN stands: [nan, -1] is accepted, [-1, nan] rejected). *)
+Definition outside_universe (d : desc) : Prop :=
+  exists r, In r (d_rewards d) /\ (num_of r = None \/ num_of r = Some FNaN).
+(* every transitions value has a len() (str, tuple, list): what run_games' count_transitions needs *)
+Definition sized_trans (d : desc) : Prop :=
+  forall v, In v (d_trans d) -> exists k, py_len v = Some k.
